@@ -758,6 +758,21 @@ ReopenRemoveHole ==
                    \cup (IF keepPg /\ FetchIndex(R, "PGIDS", FALSE, h) # 0 THEN {"HoleRemovalKeepsEmptyPgRow"} ELSE {}),
                  [holes |-> {h}, names |-> DataLabels])
 
+\* ws.close(); Workspace(path); then workspace.remove_entity(pg) | hole.remove_children([pg]) straight away: the hole's data
+\* have not been loaded in this session.  remove_entity(pg) (506-513) finds the members through the hole
+\* (entity.parent.get_entity(uid)), which loads the hole's children on first use (object.py:95-113), so the whole
+\* table goes: its DEPTH / FROM, TO, its payload, their keys, records and rows.
+ReopenRemoveGroup ==
+    \E h \in Holes, pgname \in PgNames, via \in {"ws", "parent"} :
+      /\ Usable(h) /\ ~Corrupt(s)
+      /\ \A x \in LiveHoles(s) : ~Unclean(s, x)
+      /\ PgIdxByName(s.hs[h], pgname) # 0
+      /\ LET R == ReopenState(s)
+             pg == PgOf(R, h, pgname)
+             names == {R.hs[h].ch[ChildIdxById(R.hs[h], pg.props[i])].name : i \in DOMAIN pg.props}
+         IN Done(RemovePgCore(R, h, pg.id), "ReopenRemoveGroup", [h |-> h, pg |-> pgname, via |-> via], "ok", {},
+                 [holes |-> {h}, names |-> names])
+
 Enabled(a) == a \in Acts
 Next ==
     /\ ~s.broken /\ ~s.halt
@@ -786,6 +801,7 @@ Next ==
                   \/ Enabled("AddObjectData") /\ AddObjectData
                   \/ Enabled("AddBadData") /\ AddBadData
                   \/ Enabled("ReopenRemoveHole") /\ ReopenRemoveHole
+                  \/ Enabled("ReopenRemoveGroup") /\ ReopenRemoveGroup
        \* every state reached by the last allowed action is still re-opened once (read back from the file)
        \/ TLCGet("level") = MaxLevel + 1 /\ Enabled("Reopen") /\ Reopen
 Spec == Init /\ [][Next]_vars
